@@ -393,4 +393,6 @@ MUTANTS = [
     dict(name='reintroduce-D18c-exception-escapes', file='pjrpc/server/integration/werkzeug.py',
          find='        except exceptions.HTTPException as e:\n            response = e.get_response(environ)\n',
          replace='        except exceptions.NotFound as e:\n            response = e.get_response(environ)\n', expect='GATE-ANSWER'),
+    dict(name='werkzeug-body-bytes', file='pjrpc/server/integration/werkzeug.py', find='request_text = request.get_data(as_text=True)',
+         replace='request_text = request.get_data()', expect=['RELAY', 'INTEG-SIBLINGS']),
 ]
